@@ -1627,6 +1627,7 @@ func main() {
 		}
 	}
 	smallScope(r)
+	smallScopeFilters()
 	coverageFloors()
 	for _, res := range []bool{true, false} {
 		for _, rok := range []bool{true, false} {
@@ -1664,6 +1665,7 @@ func coverageFloors() {
 	}
 	need("graph=fan", 100)
 	need("small-scope", 2000)
+	need("small-scope-filters", 500)
 	need("referrers-by-type", 100)
 	need("fault=hit", 50)
 	need("findRoots-fault=error", 50)
@@ -1711,6 +1713,13 @@ func replay(path string) {
 			var a []any
 			if json.Unmarshal(w, &a) == nil && len(a) == 6 {
 				wrapperCase(a[0].(bool), a[1].(bool), a[2].(bool), a[3].(bool), a[4].(string), a[5].(string))
+			}
+			continue
+		}
+		if sg, ok := probe["smallfilter"]; ok {
+			var sc smallFCase
+			if json.Unmarshal(sg, &sc) == nil {
+				runSmallF(&sc)
 			}
 			continue
 		}
